@@ -108,6 +108,8 @@ def multiply(
         max_key < 128
         and exponents.shape[1] < 256
         and numpy.dtype(dtype) in CFUNCTION_DTYPES
+        # (the helper sums booleans as bytes, which wraps at 256 coinciding terms)
+        and numpy.dtype(dtype) != numpy.dtype(bool)
         and out_.dtype == dtype
     ):
         numpoly.cmultiply(
